@@ -1,4 +1,83 @@
-import Usual.C02.Parse
-/-! Property theorems for C02 (being written). -/
+import UsualProofs.C02.Strict
+/-!
+# C02 — JSON parser: total, strict and value-correct on every input
+
+Property-level theorems only.  Model: `Usual/C02/Parse.lean` (mirrors `usual/json.c` as
+repaired by `fixes/F03-json-subnormal.patch`), driven by the tables of
+`Usual/Gen/C02Tables.lean`, which are regenerated from the source on every run.
+
+* `parse sd o doc : Except Err JVal` — `json_parse` with option set `o` on the bytes `doc`;
+  `sd` is `strtod` (bits of the result, bytes consumed) and stays a parameter;
+* `Err.none` = "`json_strerror` is NULL";
+* `Reaches sd o doc st rest` — started on `doc`, the token loop of `parse_tokens` arrives at its
+  head (i.e. *between* tokens, never inside a string, number or literal) in parser state `st`
+  with the bytes `rest` still ahead.
+-/
 namespace UsualProps.C02
+open Usual.C02 Usual.C03
+open Usual.Gen.C02Tables
+
+/-- **Total, and never NULL without a message.**  For every byte string, every option set and
+every behaviour of `strtod`, `json_parse` (as a total function: it terminates) returns a value
+tree, or fails with `json_strerror ≠ NULL`. -/
+theorem parse_total (sd : Bytes → UInt64 × Nat) (o : Opts) (doc : Bytes) :
+    (∃ v, parse sd o doc = .ok v) ∨ (∃ e, parse sd o doc = .error e ∧ e ≠ .none) :=
+  run_total sd o doc.length St.init doc (Nat.le_refl _) Inv_init
+
+-- non-vacuity: both outcomes occur (`[1,]` in strict and in relaxed mode)
+example : parse strtodModel ⟨false, false⟩ [0x5B, 0x31, 0x2C, 0x5D] = .error .unexpectedSymbol ∧
+    parse strtodModel ⟨true, false⟩ [0x5B, 0x31, 0x2C, 0x5D] = .ok (.list [.int 1]) := ⟨rfl, rfl⟩
+
+/-- **Strict mode rejects comments.**  Without `JSON_PARSE_RELAXED`, a `/` between tokens — the
+start of any comment — ends the parse with "Invalid symbol", whatever follows. -/
+theorem strict_rejects_comment (sd : Bytes → UInt64 × Nat) (o : Opts) (doc : Bytes) (st : St)
+    (src : Bytes) (hr : o.relaxed = false) (h : Reaches sd o doc st (0x2F :: src)) :
+    parse sd o doc = .error .invalidSymbol := by
+  rw [h.parse_eq]; exact run_slash_strict sd o st src hr
+
+-- `[1,/*c*/2]`: the loop reaches the comment after `[1,`
+example : ∃ st, Reaches strtodModel ⟨false, false⟩ [0x5B,0x31,0x2C,0x2F,0x2A,0x63,0x2A,0x2F,0x32,0x5D] st
+    [0x2F,0x2A,0x63,0x2A,0x2F,0x32,0x5D] := ⟨_, .step (.step (.step .start rfl) rfl) rfl⟩
+-- … and the same document is accepted in relaxed mode
+example : parse strtodModel ⟨true, false⟩ [0x5B,0x31,0x2C,0x2F,0x2A,0x63,0x2A,0x2F,0x32,0x5D] =
+    .ok (.list [.int 1, .int 2]) := rfl
+
+/-- **Strict mode rejects an extra comma.**  Without `JSON_PARSE_RELAXED`, a comma between tokens
+that is followed — after white space only — by another comma, by `]`, by `}` or by the end of the
+document is an error.  (Reduced to `STEP_after_comma`: in the state an accepted comma leads to,
+`STATE_STEPS` has 0 for `,` `]` `}` and the state is not `S_DONE`.) -/
+theorem strict_rejects_extra_comma (sd : Bytes → UInt64 × Nat) (o : Opts) (doc : Bytes) (st : St)
+    (ws tail : Bytes) (hr : o.relaxed = false) (hws : ∀ b ∈ ws, isWsByte b = true)
+    (ht : tail = [] ∨ ∃ d t, tail = d :: t ∧ (d = 0x2C ∨ d = 0x5D ∨ d = 0x7D))
+    (h : Reaches sd o doc st (0x2C :: (ws ++ tail))) :
+    ∃ e, parse sd o doc = .error e := by
+  rw [h.parse_eq]; exact run_extra_comma_strict sd o st ws tail hr hws ht
+
+-- `[1, ]` : comma, one blank, closer
+example : ∃ st, Reaches strtodModel ⟨false, false⟩ [0x5B,0x31,0x2C,0x20,0x5D] st (0x2C :: ([0x20] ++ [0x5D])) :=
+  ⟨_, .step (.step .start rfl) rfl⟩
+
+/-- … and a comma directly (white space only) after `[` or `{`. -/
+theorem strict_rejects_leading_comma (sd : Bytes → UInt64 × Nat) (o : Opts) (doc : Bytes) (st : St)
+    (b : UInt8) (ws tail : Bytes) (hr : o.relaxed = false) (hb : b = 0x5B ∨ b = 0x7B)
+    (hws : ∀ x ∈ ws, isWsByte x = true) (h : Reaches sd o doc st (b :: (ws ++ 0x2C :: tail))) :
+    ∃ e, parse sd o doc = .error e := by
+  rw [h.parse_eq]; exact run_leading_comma_strict sd o st b ws tail hr hb hws
+
+example : Reaches strtodModel ⟨false, false⟩ [0x5B,0x2C,0x31,0x5D] St.init (0x5B :: ([] ++ 0x2C :: [0x31,0x5D])) :=
+  .start
+
+/-- **Trailing garbage is rejected (all option sets).**  Once the top-level value is complete
+(state `S_DONE`) every further byte other than white space — and, in relaxed mode, other than the
+`/` that starts a comment — is an error.  (Reduced to `∀ t, STEP S_DONE t = 0`.) -/
+theorem rejects_trailing_garbage (sd : Bytes → UInt64 × Nat) (o : Opts) (doc : Bytes) (st : St)
+    (c : UInt8) (src : Bytes) (hs : st.state = S_DONE) (hw : isWsByte c = false)
+    (hc : ¬(o.relaxed = true ∧ c = 0x2F)) (h : Reaches sd o doc st (c :: src)) :
+    parse sd o doc = .error .unexpectedSymbol ∨ parse sd o doc = .error .invalidSymbol := by
+  rw [h.parse_eq]; exact run_after_done sd o st c src hs hw hc
+
+-- `1 x`: after `1` and the blank the state is S_DONE and `x` is ahead
+example : ∃ st, st.state = S_DONE ∧ Reaches strtodModel ⟨true, true⟩ [0x31,0x20,0x78] st [0x78] :=
+  ⟨_, rfl, .step (.step .start rfl) rfl⟩
+
 end UsualProps.C02
